@@ -112,6 +112,15 @@ def eval_case(case):
     xrows = (H[:, :n].sum(axis=1) > 0)      # X-type generators (detect Z errors)
     zrows = (H[:, n:].sum(axis=1) > 0)
     et = (case.get('dparams') or {}).get('error_type')
+    # matching is maximum-likelihood: with a flip marginal of 1/2 or more the
+    # weights turn non-positive and the likeliest explanation of the trivial
+    # syndrome need not be the trivial one; the clause is checked below 1/2
+    ml_trivial = True
+    if name == 'MatchingDecoder' and case['code'].get('kind') != 'scrambled':
+        from checks.c07_noise_model import expected_table
+        t_ = expected_table(code, case['direction'], float(case['error_rate']),
+                            case.get('noise_deformation'), case.get('noise_kwargs') or {})
+        ml_trivial = max(float((t_['X'] + t_['Y']).max()), float((t_['Z'] + t_['Y']).max())) < 0.5 - 1e-9
     seen = set()
     nt_keys = []
     tag = f"{name}{case.get('dparams')} on {case['code'].get('cls', 'scrambled')}" \
@@ -157,7 +166,7 @@ def eval_case(case):
                      f'{j} decodes on the same object): correction has syndrome '
                      f'{np.nonzero(cs)[0].tolist()}, measured {np.nonzero(s)[0].tolist()}')
                 break
-            if not zero_ok:
+            if not zero_ok and ml_trivial:
                 fail('trivial_syndrome_trivial_correction',
                      f'{tag}: zero syndrome (decode #{j}) returned correction '
                      f'{np.nonzero(c)[0].tolist()}')
@@ -247,6 +256,27 @@ def enumerated(seed, quick):
                                         noise_deformation=nd, error_rate=rate,
                                         code=domain.code_case(cls, size), errors='weight12',
                                         n_errors=12 if quick else 60, rseed=seed * 1000 + i))
+    # the matching-based decoders at the same corners (weights at and beyond
+    # the ends of the log-likelihood scale)
+    for dec, cls, size in (('MatchingDecoder', 'RotatedPlanar2DCode', (2, 2)),
+                           ('MatchingDecoder', 'Toric2DCode', (3, 3)),
+                           ('MatchingDecoder', 'Planar2DCode', (2, 3)),
+                           ('SweepMatchDecoder', 'Toric3DCode', (2, 2, 2)),
+                           ('RotatedSweepMatchDecoder', 'RotatedPlanar3DCode', (2, 2, 2)),
+                           ('XCubeMatchingDecoder', 'XCubeCode', (2, 2, 2)),
+                           ('UnionFindDecoder', 'Toric2DCode', (3, 3))):
+        for rate in (0.0, 1.0, 0, 1, 0.5, 0.999999):
+            for direction in domain.DIRECTION_POOL[:6]:
+                for nd in (None, 'XZZX'):
+                    if quick and (i % 2) and nd:
+                        i += 1
+                        continue
+                    i += 1
+                    out.append(dict(base, decoder=dec, dparams={},
+                                    direction=[float(x) for x in direction],
+                                    noise_deformation=nd, error_rate=rate,
+                                    code=domain.code_case(cls, size), errors='weight12',
+                                    n_errors=8 if quick else 40, rseed=seed * 1000 + i))
     # BP-OSD with the options the command line writes into every input file
     # (generate-input: max_bp_iter 1000, osd_order 100), each in an
     # interpreter of its own
